@@ -1223,7 +1223,8 @@ theorem ipv6_exts_read_vs_from_slice (start : Nat) (pre b : Bytes) :
     | .ok (e, next, rest) =>
       ∃ got, ReadsOk (Reads.ipv6exts start) pre b (b.length - rest.length) { got := got, next := next } ∧
         b = b.take (b.length - rest.length) ++ rest ∧
-        gathered got = b.take (b.length - rest.length) ∧ decodeGot got = some e
+        gathered got = b.take (b.length - rest.length) ∧ decodeGot got = some e ∧
+        Ext.Exts.fromSlice start (b.take (b.length - rest.length)) = .ok (e, next, [])
     | .error (.err (.len _)) => ReadsEof (Reads.ipv6exts start) pre b
     | .error (.err (.content c)) =>
       ∃ n, n ≤ b.length ∧ ReadsContent (Reads.ipv6exts start) pre b n (extsErrText c)
@@ -1237,27 +1238,29 @@ theorem ipv6_exts_read_of_slice (start : Nat) (pre b : Bytes) (e : Ext.Exts) (ne
     (hd : Ext.Exts.fromSlice start b = .ok (e, next, rest)) :
     ∃ got, ReadsOk (Reads.ipv6exts start) pre b (b.length - rest.length) { got := got, next := next } ∧
       b = b.take (b.length - rest.length) ++ rest ∧
-      gathered got = b.take (b.length - rest.length) ∧ decodeGot got = some e := by
+      gathered got = b.take (b.length - rest.length) ∧ decodeGot got = some e ∧
+      Ext.Exts.fromSlice start (b.take (b.length - rest.length)) = .ok (e, next, []) := by
   have t := ipv6exts_table start pre b; rw [hd] at t; exact t
 
 /-- (2) `read` succeeds with `r` ⟹ `from_slice` succeeds with the same next ip number, `b` is the gathered
-    bytes followed by `rest`, exactly the gathered bytes were consumed, and they decode to the same struct -/
+    bytes followed by `rest`, exactly the gathered bytes were consumed, and they decode to the same struct
+    (header by header, and through `from_slice` on the gathered bytes) -/
 theorem ipv6_exts_slice_of_read (start : Nat) (pre b : Bytes) (r : Reads.ExtsRead)
     (hr : ((Reads.ipv6exts start).run (readerAt pre b)).2 = .ok r) :
     ∃ e rest, Ext.Exts.fromSlice start b = .ok (e, r.next, rest) ∧ b = gathered r.got ++ rest ∧
       ((Reads.ipv6exts start).run (readerAt pre b)).1 = readerAdv pre b (gathered r.got).length ∧
-      decodeGot r.got = some e := by
+      decodeGot r.got = some e ∧ Ext.Exts.fromSlice start (gathered r.got) = .ok (e, r.next, []) := by
   have t := ipv6exts_table start pre b
   cases hd : Ext.Exts.fromSlice start b with
   | ok x =>
     obtain ⟨e, n, rest⟩ := x
     rw [hd] at t
-    obtain ⟨got, t1, t2, t3, t4⟩ := t
+    obtain ⟨got, t1, t2, t3, t4, t5⟩ := t
     rw [t1.snd] at hr
     cases hr
     have hl : (b.take (b.length - rest.length)).length = b.length - rest.length := by
       simp [List.length_take]
-    exact ⟨e, rest, rfl, by rw [t3]; exact t2, by rw [t3, hl]; exact t1.fst, t4⟩
+    exact ⟨e, rest, rfl, by rw [t3]; exact t2, by rw [t3, hl]; exact t1.fst, t4, by rw [t3]; exact t5⟩
   | error f =>
     rw [hd] at t
     cases f with
@@ -1310,7 +1313,7 @@ theorem exChain_from_slice : Ext.Exts.fromSlice 0 exChain =
     Ext.fromSliceLoop, Ext.fragFromSlice, Ext.Exts.empty, be16, be32]
 example : ∃ r, ((Reads.ipv6exts 0).run (readerAt [0xff] exChain)).2 = .ok r ∧ r.next = 17 ∧
     gathered r.got = exChain.take 16 := by
-  obtain ⟨got, h1, _, h3, _⟩ := ipv6_exts_read_of_slice 0 [0xff] exChain _ _ _ exChain_from_slice
+  obtain ⟨got, h1, _, h3, _, _⟩ := ipv6_exts_read_of_slice 0 [0xff] exChain _ _ _ exChain_from_slice
   exact ⟨_, h1.snd, rfl, h3⟩
 /-- a second hop-by-hop header behind the first one: `HopByHopNotAtStart` on both sides -/
 example : Ext.Exts.fromSlice 0 [0, 0, 1, 2, 3, 4, 5, 6, 9] = .error (.err (.content .hopByHopNotAtStart)) := by
